@@ -80,8 +80,8 @@ extern "C" void verif_harness() {
     int below = 0, above = 0; for (int i = 0; i < n; i++) { if (a[i] < med) below++; if (a[i] > med) above++; }
     SYM_ASSERT(2 * below <= n && 2 * above <= n, "median does not split the sample in halves");
     if (n % 2 == 1) SYM_ASSERT(has(a, med), "median of an odd-length sample is not a sample value");
-    else { bool ok = false; for (int i = 0; i < n && !ok; i++) for (int j = 0; j < n; j++) if (i != j && __sym_eq(med, (a[i] + a[j]) / 2)) { int lo = 0, hi = 0; double l = a[i] < a[j] ? a[i] : a[j], h = a[i] < a[j] ? a[j] : a[i]; for (int k = 0; k < n; k++) if (k != i && k != j) { if (a[k] <= l) lo++; else if (a[k] >= h) hi++; else { lo = -99; } } if (lo == hi) { ok = true; break; } }
-      SYM_ASSERT(ok, "median of an even-length sample is not the mean of the two middle values"); }
+    else { V so = a; for (int i = 1; i < n; i++) for (int j = i; j > 0 && so[j] < so[j - 1]; j--) { double t = so[j]; so[j] = so[j - 1]; so[j - 1] = t; }    // reference order (insertion sort: ties handled)
+      SYM_ASSERT_EQ(med, (so[n / 2 - 1] + so[n / 2]) / 2, "median of an even-length sample is not the mean of the two middle values"); }
     V u = VectorTools::unique(a); for (size_t i = 0; i < u.size(); i++) { SYM_ASSERT(has(a, u[i]), "unique invents a value"); if (i) SYM_ASSERT(u[i - 1] < u[i], "unique is not strictly ascending"); } for (int i = 0; i < n; i++) SYM_ASSERT(has(u, a[i]), "unique drops a value");
     SYM_ASSERT(VectorTools::isUnique(a) == ((int)u.size() == n), "isUnique differs from 'no repeated element'");
     break; }
